@@ -24,7 +24,10 @@ def run(rep, pdb, tier):
     closures = [n for n in walk(fn["body"]) if n.get("k") == "Closure"]
     scope_calls = [n for n in walk(fn["body"]) if n.get("k") == "Call" and (callee_path(n) or "").endswith("thread::scope")]
     spawns = [n for n in walk(fn["body"]) if n.get("k") == "MethodCall" and n.get("name") == "spawn" and "thread" in (callee_path(n) or "")]
-    if len(scope_calls) != 1 or len(spawns) != 1 or len(closures) != 2:
+    # besides the scope closure and the worker closure only the closure of an in-order `fold` reduction may appear
+    folds = [n for n in walk(fn["body"]) if n.get("k") == "MethodCall" and n.get("name") == "fold" and len(n.get("args", [])) == 2 and strip(n["args"][1]).get("k") == "Closure"]
+    extra = len(closures) - 2
+    if len(scope_calls) != 1 or len(spawns) != 1 or extra not in (0, len(folds)) or extra > 1:
         rep.missing("structure", "one thread::scope call, one spawn, a scope closure and a worker closure",
                     "scope calls=%d spawns=%d closures=%d (a re-implementation with another idiom needs its own rule)" % (len(scope_calls), len(spawns), len(closures)), where)
         return {}
@@ -63,8 +66,10 @@ def run(rep, pdb, tier):
     last_ok, chain_ok, det = False, False, ""
     if is_ite:
         cond, th, el = end[1], end[2], end[3]
-        lastc = cond[0] == "op" and cond[1] == "==" and {cond[2], cond[3]} == {i, lin_add(T, num(-1))}
-        notlast = cond[0] == "op" and cond[1] == "!=" and {cond[2], cond[3]} == {i, lin_add(T, num(-1))}
+        from .terms import lin_sub
+        is_last = cond[0] == "op" and cond[1] in ("==", "!=") and lin_sub(cond[2], cond[3]) in (lin_sub(i, lin_add(T, num(-1))), lin_sub(lin_add(T, num(-1)), i))
+        lastc = is_last and cond[1] == "=="          # i == T-1, i + 1 == T, T - 1 == i, ...
+        notlast = is_last and cond[1] == "!="
         if notlast:
             th, el, lastc = el, th, True
         nxt = subst_term(start, {i: lin_add(i, num(1))})
@@ -90,7 +95,7 @@ def run(rep, pdb, tier):
             calls.append(callee_path(n))
         if n.get("k") == "Def" and str(n.get("dk", "")).startswith("Static"):
             calls.append("static " + str(n.get("fn")))
-    pure = all(c in ("[T]::len",) for c in calls)
+    pure = all(c in ("[T]::len", "std::vec::Vec<T, A>::len", "std::cmp::min") for c in calls)     # (the last two come from a canonicalised zip loop)
     unsafe_free = pdb.d["unsafe_blocks"] + pdb.d["unsafe_items"] == 0
     rep.add("schedule-free", "the spawned closure captures only shared references to [f64], calls nothing but slice len/index and f64 arithmetic, "
             "and returns its partial sum by value; no unsafe in the crate: each partial sum is a pure function of its window",
@@ -103,7 +108,8 @@ def run(rep, pdb, tier):
         wr = for_range(ctx, e.loops[-1]) if e.loops else None
         capvars = {("idx", b1, r1), ("idx", b2, r2)}
         wok = e.op == "+=" and v[0] == "op" and v[1] == "*" and v[2][0] == "idx" and v[3][0] == "idx" and v[2][2] == v[3][2] and \
-            {v[2][1], v[3][1]} == capvars and wr is not None and v[2][2] == wr[0] and wr[1] == num(0) and wr[2] in (LEN(v[2][1]), LEN(v[3][1])) and not wr[3]
+            {v[2][1], v[3][1]} == capvars and wr is not None and v[2][2] == wr[0] and wr[1] == num(0) and not wr[3] and \
+            (wr[2] in (LEN(v[2][1]), LEN(v[3][1])) or (wr[2][0] == "call" and str(wr[2][1]).endswith("::min") and set(wr[2][2:]) == {LEN(v[2][1]), LEN(v[3][1])}))
         tb = ctx.binds.get(e.target[1]) if e.target[0] == "var" else None
         init0 = tb is not None and tb.init is not None and ctx.term(tb.init) == num(0)
         tail = worker["body"].get("expr")
@@ -118,7 +124,25 @@ def run(rep, pdb, tier):
         hv = pushes[0].target
         joins = [n for n in walk(fn["body"]) if n.get("k") == "MethodCall" and n.get("name") == "join"]
         okr = len(joins) == 1
-        if okr:
+        jfold = [f_ for f_ in folds if okr and any(a is strip(f_["args"][1]) for a in ancestors(joins[0]))]
+        if okr and jfold:
+            # handles.into_iter().fold(0.0, |acc, t| acc + t.join().unwrap()): joined in the Vec's order into one accumulator
+            f_ = jfold[0]
+            cl = strip(f_["args"][1])
+            src = strip(f_["recv"])
+            into = src.get("k") == "MethodCall" and src.get("name") in ("into_iter",) and ctx.term(src["recv"]) == hv
+            ps = cl.get("params", [])
+            okp = len(ps) == 2 and all(p_.get("k") == "Bind" for p_ in ps)
+            body_t = ctx.term(cl["body"]) if okp else None
+            acc_v, th_v = (("var", ps[0]["v"]), ("var", ps[1]["v"])) if okp else (None, None)
+            okb = okp and body_t[0] == "op" and body_t[1] == "+" and body_t[2] == acc_v and ctx.term(joins[0]["recv"]) == th_v
+            init0 = ctx.term(f_["args"][0]) == num(0)
+            spawned = pushes[0].value[0] == "call" and "spawn" in str(pushes[0].value[1])
+            reorder = [n for n in walk(fn["body"]) if n.get("k") == "MethodCall" and n.get("name") in ("sort", "reverse", "swap", "sort_by", "pop", "remove", "insert", "rev") and
+                       (ctx.term(n["recv"]) == hv or n is strip(f_["recv"]))]
+            okr = into and okb and init0 and spawned and not reorder
+            det = "handles pushed in spawn order=%s folded in the Vec's order from 0.0 with acc + join()=%s" % (spawned, okb and init0 and into)
+        elif okr:
             j = joins[0]
             jl = [a for a in ancestors(j) if a.get("k") == "For"]
             okr = len(jl) == 1 and ctx.term(jl[0]["iter"]) == hv and jl[0]["pat"].get("k") == "Bind" and ctx.term(j["recv"]) == ("var", jl[0]["pat"]["v"])
